@@ -9,6 +9,9 @@
   that the shipped lexer behaves as the model lexer is the LEX correspondence.
 -/
 import Blackbird.Lemmas.LexComment
+import Blackbird.Lemmas.LexSpace
+import Blackbird.Lemmas.LexNewline
+import Blackbird.Lemmas.LexTab
 
 namespace Blackbird
 
@@ -38,6 +41,54 @@ theorem C18_comment_line_is_blank (fuel : Nat) (c rest : List Char) (hc : ∀ x 
     (lexGo lexRules fuel rest p acc).map Tok.kt := by
   rw [lexGo_comment fuel c rest hc hr p acc]
   exact lexGo_pos_irrelevant _ _ _ _ _ _ _ rfl
+
+/-- **Spaces between tokens are skipped**: a run of `n + 1` spaces that is not exactly four long
+(four spaces are the TAB token, the grammar's indentation), followed by the end of the input or by
+anything but a space or a tab, emits no token. -/
+theorem C18_spaces_are_skipped (fuel n : Nat) (rest : List Char)
+    (hr : rest = [] ∨ ∃ x t, rest = x :: t ∧ (x ≠ ' ' ∧ x ≠ '\t')) (hn : n + 1 ≠ 4) (p : Pos) (acc : List Tok) :
+    lexGo lexRules (fuel + 1) (' ' :: (List.replicate n ' ' ++ rest)) p acc =
+      lexGo lexRules fuel rest ⟨p.line, p.col + (n + 1)⟩ acc :=
+  lexGo_spaces fuel n rest hr hn p acc
+
+/-- **The amount of spacing is irrelevant**: one, two, three, five or more spaces before the same
+rest of the input give the same tokens as no space at all. -/
+theorem C18_spacing_irrelevant (fuel n : Nat) (rest : List Char)
+    (hr : rest = [] ∨ ∃ x t, rest = x :: t ∧ (x ≠ ' ' ∧ x ≠ '\t')) (hn : n + 1 ≠ 4) (p : Pos) (acc : List Tok) :
+    (lexGo lexRules (fuel + 1) (' ' :: (List.replicate n ' ' ++ rest)) p acc).map Tok.kt =
+    (lexGo lexRules fuel rest p acc).map Tok.kt := by
+  rw [lexGo_spaces fuel n rest hr hn p acc]
+  exact lexGo_pos_irrelevant _ _ _ _ _ _ _ rfl
+
+/-- the excluded length is needed: exactly four spaces ARE a token -/
+theorem C18_four_spaces_are_a_tab :
+    bestRule lexRules "    0".toList = some (.TAB, false, 4) := by decide +kernel
+
+/-- **LF, CR LF and a lone CR are each exactly one NEWLINE token** (`EolAt s n`: the text `s` starts
+with a line end of `n` characters; a CR counts alone only when no LF follows it). -/
+theorem C18_line_end_is_one_newline (fuel : Nat) (s : List Char) (n : Nat) (h : EolAt s n) (p : Pos) (acc : List Tok) :
+    lexGo lexRules (fuel + 1) s p acc =
+      lexGo lexRules fuel (s.drop n) (advance p (s.take n)) (⟨.NEWLINE, String.ofList (s.take n), p⟩ :: acc) :=
+  lexGo_eol fuel s n h p acc
+
+/-- **The line-ending style is irrelevant to the token kinds**: the same rest of the input behind an
+LF, a CR LF or a lone CR (the rest then not starting with LF) gives the same sequence of kinds. -/
+theorem C18_line_end_style_irrelevant (fuel : Nat) (rest : List Char)
+    (hr : rest = [] ∨ ∃ y u, rest = y :: u ∧ y ≠ '\n') (p : Pos) (acc : List Tok) :
+    (lexGo lexRules (fuel + 1) ('\r' :: '\n' :: rest) p acc).map (·.kind) =
+      (lexGo lexRules (fuel + 1) ('\n' :: rest) p acc).map (·.kind) ∧
+    (lexGo lexRules (fuel + 1) ('\r' :: rest) p acc).map (·.kind) =
+      (lexGo lexRules (fuel + 1) ('\n' :: rest) p acc).map (·.kind) := by
+  rw [lexGo_eol fuel _ 2 (.crlf rest), lexGo_eol fuel _ 1 (.lf rest), lexGo_eol fuel _ 1 (.cr rest hr)]
+  constructor <;> exact lexGo_kinds_irrelevant _ _ _ _ _ _ _ (by simp)
+
+/-- **A tab and exactly four spaces are the same token**: each, followed by the end of the input or
+by anything but a space or a tab, is matched as one TAB (never skipped). -/
+theorem C18_tab_or_four_spaces_one_tab (rest : List Char)
+    (hr : rest = [] ∨ ∃ x t, rest = x :: t ∧ (x ≠ ' ' ∧ x ≠ '\t')) :
+    bestRule lexRules ('\t' :: rest) = some (.TAB, false, 1) ∧
+    bestRule lexRules (' ' :: ' ' :: ' ' :: ' ' :: rest) = some (.TAB, false, 4) :=
+  ⟨bestRule_tab rest hr, bestRule_four_spaces rest hr⟩
 
 /-- non-vacuity: a comment with quotes, hashes and non-ASCII text before a CRLF -/
 example : (∀ x ∈ "\"q0\" # é | 1".toList, x ≠ '\n' ∧ x ≠ '\r') ∧
